@@ -475,6 +475,12 @@ func (k Keeper) buildRequest(
 	if !superMode {
 		binding, _ := k.GetServiceBinding(ctx, serviceName, provider)
 		serviceFee = k.GetPrice(ctx, consumer, binding)
+
+		// the consumer is charged the exchanged price: a price quoted in another denomination
+		// must be recorded on the request as the amount that was actually taken into escrow
+		if price, _, err := k.GetExchangedPrice(ctx, consumer, binding); err == nil {
+			serviceFee = price
+		}
 	}
 
 	return types.NewCompactRequest(
